@@ -137,10 +137,12 @@ def run_forks(ctx, cfg, epochs=(100, 2), timeout=3000):
 # casper family: (cfg name, N, Me (99 = the node's key is not a validator), stride quick, stride thorough)
 CASPER_CFGS = {
     "quick": [("cfg/CasperGen.n1.quick.cfg", 1, 0, 1), ("cfg/CasperGen.n3me.quick.cfg", 3, 0, 1),
-              ("cfg/CasperGen.n3ext.quick.cfg", 3, 99, 4), ("cfg/CasperGen.deep.cfg", 4, 0, 1, 12, 90), ("cfg/CasperGen.restart.quick.cfg", 4, 99, 4)],
+              ("cfg/CasperGen.n3ext.quick.cfg", 3, 99, 4), ("cfg/CasperGen.deep.cfg", 4, 0, 1, 12, 90), ("cfg/CasperGen.deepbyz.cfg", 4, 0, 1, 6, 90),
+              ("cfg/CasperGen.restart.quick.cfg", 4, 99, 4)],
     "thorough": [("cfg/CasperGen.n1.thorough.cfg", 1, 0, 1), ("cfg/CasperGen.n3me.thorough.cfg", 3, 0, 4),
                  ("cfg/CasperGen.n3ext.quick.cfg", 3, 99, 1), ("cfg/CasperGen.n4byz.thorough.cfg", 4, 99, 16),
-                 ("cfg/CasperGen.deep.cfg", 4, 0, 1, 400, 90), ("cfg/CasperGen.restart.quick.cfg", 4, 99, 1)],
+                 ("cfg/CasperGen.deep.cfg", 4, 0, 1, 400, 90), ("cfg/CasperGen.deepbyz.cfg", 4, 0, 1, 200, 90),
+                 ("cfg/CasperGen.restart.quick.cfg", 4, 99, 1)],
 }
 
 
